@@ -146,9 +146,14 @@ impl Iterator for PossibleDoFiles {
         mem::swap(&mut state, &mut self.state);
         match state {
             DoFilesState::First(t) => {
+                // "/" (and what cleans to it: "/..", "//") names no file: no rule can
+                // apply to it.
+                let filename = match t.file_name() {
+                    Some(filename) => filename,
+                    None => return None,
+                };
                 let result = {
                     let dirname = t.parent().unwrap_or(&t);
-                    let filename = t.file_name().unwrap();
                     let mut do_file = filename.to_os_string();
                     do_file.push(".do");
                     Some(DoFile {
